@@ -9,10 +9,11 @@ import (
 	"sort"
 	"strconv"
 	"strings"
+	"time"
 
 	dbm "github.com/tendermint/tm-db"
 
-	"github.com/tendermint/tendermint/evidence"
+	tmproto "github.com/tendermint/tendermint/proto/tendermint/types"
 	"github.com/tendermint/tendermint/types"
 
 	"verifharness/core"
@@ -271,7 +272,7 @@ func execOp(cp **chain, op string) (res string) {
 		}
 		c.build()
 		c.grow(H)
-		p, err := evidence.NewPool(c.evDB, c.stateStore, c.blockStore)
+		p, err := c.newPool()
 		if err != nil {
 			return "init-error"
 		}
@@ -284,7 +285,7 @@ func execOp(cp **chain, op string) (res string) {
 	if c.dead { // a panic killed the process: only a restart (and the stores) continue
 		switch f[0] {
 		case "grow", "restart":
-		case "add", "check", "update", "report", "pe":
+		case "add", "check", "update", "cupdate", "report", "pe":
 			if r := deadOp(c, f[0], m); r != "" {
 				return r
 			}
@@ -339,7 +340,7 @@ func execOp(cp **chain, op string) (res string) {
 			r = "err-invalid"
 		}
 		return r + " " + c.view()
-	case "update":
+	case "update", "cupdate":
 		h, okH := get("h")
 		e, okE := get("ev")
 		ds, ok := c.lookupAll(e, okE)
@@ -350,6 +351,38 @@ func execOp(cp **chain, op string) (res string) {
 		if H > c.storeH || H < 1 {
 			return "bad-op"
 		}
+		// cupdate: consensus (another goroutine) reports a conflicting vote pair WHILE Update runs:
+		// released at the pool's first store / DB lookup inside Update
+		var done chan struct{}
+		if f[0] == "cupdate" {
+			d, ok := c.defs[m["e"]]
+			sw := m["swap"]
+			if !ok || (sw != "0" && sw != "1") {
+				return "bad-op"
+			}
+			dv, isDV := d.ev.(*types.DuplicateVoteEvidence)
+			if !isDV {
+				return "bad-op"
+			}
+			a, b := *dv.VoteA, *dv.VoteB
+			if sw == "1" {
+				a, b = b, a
+			}
+			done = make(chan struct{})
+			pool := c.pool
+			c.hook.mu.Lock()
+			c.hook.fn = func() {
+				go func() {
+					pool.ReportConflictingVotes(&a, &b)
+					close(done)
+				}()
+				select { // give the reporter time to get in (it blocks while Update holds the mutex)
+				case <-done:
+				case <-time.After(3 * time.Millisecond):
+				}
+			}
+			c.hook.mu.Unlock()
+		}
 		r := func() (r string) {
 			defer func() {
 				if x := recover(); x != nil {
@@ -359,6 +392,14 @@ func execOp(cp **chain, op string) (res string) {
 			c.pool.Update(c.stateAt(H), evList(ds))
 			return "ok"
 		}()
+		if done != nil {
+			c.hook.fire() // Update made no lookup: the report simply follows it
+			select {
+			case <-done:
+			case <-time.After(5 * time.Second):
+				return "hang " + c.view()
+			}
+		}
 		if r == "panic" {
 			c.dead = true
 		}
@@ -384,7 +425,7 @@ func execOp(cp **chain, op string) (res string) {
 		if len(f) != 1 {
 			return "bad-op"
 		}
-		p, err := evidence.NewPool(c.evDB, c.stateStore, c.blockStore)
+		p, err := c.newPool()
 		if err != nil {
 			return "restart-error:" + strings.ReplaceAll(err.Error(), " ", "_")
 		}
@@ -402,7 +443,15 @@ func execOp(cp **chain, op string) (res string) {
 		for i, e := range evs {
 			ids[i] = fmt.Sprintf("%d/%s", e.Height(), hash12(e))
 		}
-		return fmt.Sprintf("pe n=%d bytes=%d ids=%s", len(evs), n, showKeys(ids))
+		// real = size of the returned evidence as a block carries it (tmproto.EvidenceList), measured
+		// here with the generated proto code, independently of the pool's own count
+		var pl tmproto.EvidenceList
+		for _, e := range evs {
+			if pb, err := types.EvidenceToProto(e); err == nil {
+				pl.Evidence = append(pl.Evidence, *pb)
+			}
+		}
+		return fmt.Sprintf("pe n=%d bytes=%d real=%d ids=%s", len(evs), n, pl.Size(), showKeys(ids))
 	}
 	return "bad-op"
 }
@@ -417,12 +466,19 @@ func deadOp(c *chain, op string, m map[string]string) string {
 	case "check":
 		l, has := m["l"]
 		_, ok = c.lookupAll(l, has)
-	case "update":
+	case "update", "cupdate":
 		h, okH := m["h"]
 		e, okE := m["ev"]
 		_, okL := c.lookupAll(e, okE)
 		H, _ := strconv.ParseInt(h, 10, 64)
 		ok = isInt(h, okH) && okL && H >= 1 && H <= c.storeH
+		if op == "cupdate" && ok {
+			d, has := c.defs[m["e"]]
+			ok = false
+			if has && (m["swap"] == "0" || m["swap"] == "1") {
+				_, ok = d.ev.(*types.DuplicateVoteEvidence)
+			}
+		}
 	case "report":
 		d, has := c.defs[m["e"]]
 		if has && (m["swap"] == "0" || m["swap"] == "1") {
